@@ -242,6 +242,128 @@ Proof.
     apply orb_eqb; assumption.
 Qed.
 
+(* ---- batch::concat: operands of one per-sample shape; operand k occupies the samples
+   [boff k, boff k + batch_k) of y.  Its forward block IS the batch_slice_bw index program
+   (paste operand k into y), lifted to operand k *)
+Notation gsumn := ProofsGather.sumn.
+Definition dshape : tshape := mkT [] 1.
+Definition boff (xs : list tshape) (k : nat) : nat := gsumn (map tbatch (firstn k xs)).
+Definition batch_concat_ok (xs : list tshape) (sy : tshape) : bool :=
+  forallb (fun sx => (tvolume sx =? tvolume sy) && (0 <? tbatch sx)) xs &&
+  (tbatch sy =? gsumn (map tbatch xs)) && (0 <? tvolume sy).
+Lemma batch_concat_blocks (sy : tshape) V : forall xs' pre,
+  Forall (fun sx => tvolume sx = V) xs' ->
+  batch_concat_loop xs' (length pre) (V * gsumn (map tbatch pre))
+  = flat_map (fun k => lift_acc k (batch_slice_bw (nth k (pre ++ xs') dshape) sy (boff (pre ++ xs') k)))
+             (seq (length pre) (length xs')).
+Proof.
+  induction xs' as [|a xs' IH]; intros pre Hv; cbn [batch_concat_loop length seq flat_map]; [reflexivity|].
+  inversion Hv as [|? ? Ha Hv']; subst.
+  assert (Hnth : nth (length pre) (pre ++ a :: xs') dshape = a) by (rewrite app_nth2, Nat.sub_diag by lia; reflexivity).
+  assert (Hoff : boff (pre ++ a :: xs') (length pre) = gsumn (map tbatch pre)).
+  { unfold boff. rewrite firstn_app, Nat.sub_diag, firstn_all. cbn [firstn]. rewrite app_nil_r. reflexivity. }
+  f_equal.
+  - rewrite Hnth, Hoff. unfold lift_acc, batch_slice_bw. rewrite map_map. cbn [fst snd].
+    unfold tsize. rewrite (Nat.mul_comm (tbatch a)). reflexivity.
+  - specialize (IH (pre ++ [a]) Hv'). rewrite app_length in IH. cbn [length] in IH.
+    replace (length pre + 1) with (S (length pre)) in IH by lia. rewrite <- app_assoc in IH. cbn [app] in IH.
+    rewrite <- IH. f_equal. rewrite map_app, sumn_app. cbn [map]. rewrite sumn_cons. unfold tsize, gsumn. cbn [fold_right]. ring.
+Qed.
+Lemma batch_concat_ok_spec xs sy : batch_concat_ok xs sy = true ->
+  covers (batch_concat_fw xs) (tsize sy) /\
+  batch_concat_fw xs = flat_map (fun k => lift_acc k (batch_slice_bw (nth k xs dshape) sy (boff xs k))) (seq 0 (length xs)) /\
+  forall k sk, nth_error xs k = Some sk -> 0 < tbatch sk /\
+    adjoint_pair (batch_slice_fw sy sk (boff xs k)) (batch_slice_bw sk sy (boff xs k)) (tsize sk) (tsize sy).
+Proof.
+  unfold batch_concat_ok. intro H. bsplit.
+  match goal with H : forallb _ _ = true |- _ => rename H into Hall end. rewrite forallb_forall in Hall.
+  assert (Hv : Forall (fun sx => tvolume sx = tvolume sy) xs).
+  { apply Forall_forall. intros sx Hin. specialize (Hall sx Hin). bsplit. assumption. }
+  split; [|split].
+  - apply sequential_covers. apply (batch_concat_fw_sequential xs sy (tvolume sy)); auto.
+  - unfold batch_concat_fw. pose proof (batch_concat_blocks sy (tvolume sy) xs [] Hv) as E.
+    cbn [length map app] in E. unfold gsumn in E. cbn [fold_right] in E. rewrite Nat.mul_0_r in E. exact E.
+  - intros k sk Hk. pose proof (Hall sk (nth_error_In _ _ Hk)) as Hs. bsplit. split; [assumption|].
+    apply (batch_slice_pair sy sk (boff xs k) (tvolume sy) (tbatch sy) (tbatch sk)); auto.
+    match goal with H : tbatch sy = _ |- _ => rewrite H end. unfold boff. apply (sumn_firstn_le tbatch xs k sk Hk).
+Qed.
+
+(* ---- concat along dim: operand k occupies the axis range [concat_off k, + its size) of y.
+   Its forward block IS the slice_bw index program with gy := operand k (batch B or 1) and
+   gx := y (paste), lifted to operand k; BACKWARD(Concat) is, per operand,
+   gx_k += slice(gy, dim, off_k, off_k + n_k)   (slice_fw, then inplace_add folding the batch) *)
+Definition paste_ok (sy sk : tshape) (dim off : nat) : bool :=
+  let base := tlower sy dim in let ny := tget sy dim in let nk := tget sk dim in
+  let R := tvolume sy / (base * ny) in let B := tbatch sy in
+  (tlower sk dim =? base) && (tvolume sy =? base * ny * R) && (tvolume sk =? base * nk * R) &&
+  ((tbatch sk =? B) || (tbatch sk =? 1)) && (0 <? B) && (off + nk <=? ny) && (0 <? base) && (0 <? nk).
+Definition concat_ok (xs : list tshape) (sy : tshape) (dim : nat) : bool :=
+  (tget sy dim =? gsumn (map (adim dim) xs)) && (0 <? tget sy dim) &&
+  forallb (fun k => paste_ok sy (nth k xs dshape) dim (concat_off xs dim k)) (seq 0 (length xs)).
+Definition rebatch (s : tshape) (B : nat) : tshape := mkT (tdims s) B.
+
+Lemma concat_block (sy a : tshape) (dim off k base R : nat) :
+  tlower sy dim = base -> tvolume sy = base * tget sy dim * R -> 0 < base -> 0 < tget sy dim ->
+  tvolume a = base * tget a dim * R -> tbatch a = tbatch sy \/ tbatch a = 1 -> 0 < tbatch sy ->
+  flat_map2 (tbatch sy) (fun b => flat_map2 R (fun i =>
+    map (fun j => (base * off + (b * R + i) * (base * tget sy dim) + j,
+                   (k, b * (thas_batch a * (base * tget a dim) * R) + i * (base * tget a dim) + j)))
+        (range (base * tget a dim))))
+  = lift_acc k (slice_bw a sy dim off).
+Proof.
+  intros Hbase Hvy Hb0 Hn0 Hva Hba HB. unfold lift_acc, slice_bw. rewrite Hbase.
+  assert (Hrep : tvolume sy / (base * tget sy dim) = R) by (rewrite Hvy, Nat.mul_comm; apply Nat.div_mul; nia).
+  rewrite Hrep. replace (Nat.max (tbatch sy) (tbatch a)) with (tbatch sy) by lia.
+  rewrite map_flat_map2. apply ProofsBilinear.flat_map2_ext. intros b Hb.
+  rewrite map_flat_map2. apply ProofsBilinear.flat_map2_ext. intros i Hi.
+  rewrite map_map. apply map_range_ext. intros j Hj. cbn [fst snd].
+  rewrite (bidx_skip sy), (bidx_same _ _ Hb), Hvy, Hva. f_equal; [ring|]. f_equal. ring.
+Qed.
+Lemma concat_blocks (sy : tshape) (dim base R : nat) :
+  tlower sy dim = base -> tvolume sy = base * tget sy dim * R -> 0 < base -> 0 < tget sy dim -> 0 < tbatch sy ->
+  forall xs' pre,
+  Forall (fun a => tvolume a = base * tget a dim * R /\ (tbatch a = tbatch sy \/ tbatch a = 1)) xs' ->
+  concat_loop xs' (length pre) (base * gsumn (map (adim dim) pre)) (tbatch sy) base (base * tget sy dim) R dim
+  = flat_map (fun k => lift_acc k (slice_bw (nth k (pre ++ xs') dshape) sy dim (concat_off (pre ++ xs') dim k)))
+             (seq (length pre) (length xs')).
+Proof.
+  intros Hbase Hvy Hb0 Hn0 HB. induction xs' as [|a xs' IH]; intros pre Hv; cbn [concat_loop length seq flat_map]; [reflexivity|].
+  inversion Hv as [|? ? [Ha Hba] Hv']; subst.
+  assert (Hnth : nth (length pre) (pre ++ a :: xs') dshape = a) by (rewrite app_nth2, Nat.sub_diag by lia; reflexivity).
+  assert (Hoff : concat_off (pre ++ a :: xs') dim (length pre) = gsumn (map (adim dim) pre)).
+  { unfold concat_off. rewrite firstn_app, Nat.sub_diag, firstn_all. cbn [firstn]. rewrite app_nil_r. reflexivity. }
+  f_equal.
+  - rewrite Hnth, Hoff. apply concat_block; auto.
+  - specialize (IH (pre ++ [a]) Hv'). rewrite app_length in IH. cbn [length] in IH.
+    replace (length pre + 1) with (S (length pre)) in IH by lia. rewrite <- app_assoc in IH. cbn [app] in IH.
+    rewrite <- IH. f_equal. rewrite map_app, sumn_app. cbn [map]. rewrite sumn_cons. unfold adim, gsumn. cbn [fold_right]. ring.
+Qed.
+Lemma concat_ok_spec xs sy dim : concat_ok xs sy dim = true ->
+  covers (concat_fw xs sy dim) (tsize sy) /\
+  concat_fw xs sy dim = flat_map (fun k => lift_acc k (slice_bw (nth k xs dshape) sy dim (concat_off xs dim k))) (seq 0 (length xs)) /\
+  forall k sk, nth_error xs k = Some sk -> paste_ok sy sk dim (concat_off xs dim k) = true.
+Proof.
+  unfold concat_ok. intro H. bsplit.
+  match goal with H : forallb _ _ = true |- _ => rename H into Hall end. rewrite forallb_forall in Hall.
+  assert (Hk : forall k sk, nth_error xs k = Some sk -> paste_ok sy sk dim (concat_off xs dim k) = true).
+  { intros k sk Esk. rewrite <- (nth_error_nth _ _ dshape Esk). apply Hall. apply in_seq.
+    pose proof (nth_error_Some xs k) as [Hl _]. rewrite Esk in Hl. specialize (Hl ltac:(discriminate)). lia. }
+  destruct xs as [|a0 xs0] eqn:Exs.
+  { exfalso. cbn in *. lia. }
+  rewrite <- Exs in *.
+  assert (Hp0 : paste_ok sy a0 dim (concat_off xs dim 0) = true) by (apply (Hk 0); rewrite Exs; reflexivity).
+  unfold paste_ok in Hp0. bsplit.
+  set (base := tlower sy dim) in *. set (ny := tget sy dim) in *. set (R := tvolume sy / (base * ny)) in *.
+  assert (Hv : Forall (fun a => tvolume a = base * tget a dim * R /\ (tbatch a = tbatch sy \/ tbatch a = 1)) xs).
+  { apply Forall_forall. intros a Hin. apply In_nth_error in Hin. destruct Hin as (k & Ek). specialize (Hk k a Ek).
+    unfold paste_ok in Hk. fold base ny R in Hk. bsplit. split; [assumption|apply orb_eqb; assumption]. }
+  split; [|split; [|exact Hk]].
+  - apply (concat_fw_covers xs sy dim base ny R (tbatch sy)); auto.
+  - unfold concat_fw. fold base ny R.
+    pose proof (concat_blocks sy dim base R eq_refl ltac:(assumption) ltac:(assumption) ltac:(assumption) ltac:(assumption) xs [] Hv) as E.
+    cbn [length map app] in E. unfold gsumn in E. cbn [fold_right] in E. rewrite Nat.mul_0_r in E. exact E.
+Qed.
+
 Section Family.
   Context {R : Type} (rO rI : R) (radd rmul rsub : R -> R -> R) (ropp : R -> R).
   Hypothesis Rth : ring_theory rO rI radd rmul rsub ropp eq.
@@ -269,6 +391,74 @@ Section Family.
     adj_of n (tsize s) L (fun g => plus_eq s (Ls g)).
   Proof. intros H Hb. exact (adj_compose rO radd rmul n (tsize s) (tsize s) L Ls (fun x => x) (plus_eq s) H (plus_eq_adj s Hb)). Qed.
 
+
+  (* ---- concat: pasting operand k into y and BACKWARD(Concat) for operand k are adjoint *)
+  Lemma gather_share B V (dx : list R) b i : b < B -> i < V ->
+    nth (b * V + i) (gatherR (share_fw B V (identity_pairs V)) (B * V) dx) rO = nth i dx rO.
+  Proof.
+    intros Hb Hi. unfold gather.
+    assert (Hlt : b * V + i < B * V) by (apply sample_lt; assumption).
+    rewrite (nth_indep _ rO (lookup R rO (share_fw B V (identity_pairs V)) dx 0)) by (rewrite map_length, seq_length; exact Hlt).
+    rewrite map_nth, seq_nth by exact Hlt. cbn [Nat.add]. unfold lookup.
+    assert (Hin : In (b * V + i, (0, i)) (share_fw B V (identity_pairs V))).
+    { apply share_fw_In. exists b, i. split; [exact Hb|split; [reflexivity|]]. apply identity_spec. auto. }
+    pose proof (find_unique (share_fw B V (identity_pairs V)) (b * V + i, (0, i))) as Hf. cbn [fst] in Hf.
+    rewrite Hf; [reflexivity| |exact Hin].
+    pose proof (share_fw_sequential B V _ (identity_sequential V)) as Hs. unfold sequential in Hs. rewrite Hs. apply seq_NoDup.
+  Qed.
+
+  Definition concat_bw (sy sk : tshape) (dim off : nat) (gy : list R) : list R :=
+    let sk' := rebatch sk (tbatch sy) in
+    scatterR (inplace_add sk' sk) (gatherR (slice_fw sy sk' dim off) (tsize sk') gy) (zeros (tsize sk)).
+
+  Lemma paste_adj sy sk dim off : paste_ok sy sk dim off = true ->
+    acc_in_bounds (slice_bw sk sy dim off) (tsize sy) (tsize sk) /\
+    adj_of (tsize sy) (tsize sk) (fun x => scatterR (slice_bw sk sy dim off) x (zeros (tsize sy))) (concat_bw sy sk dim off).
+  Proof.
+    unfold paste_ok. intro H. bsplit.
+    set (base := tlower sy dim) in *. set (ny := tget sy dim) in *. set (nk := tget sk dim) in *.
+    set (R' := tvolume sy / (base * ny)) in *. set (B := tbatch sy) in *.
+    match goal with H : (tbatch sk =? B) || (tbatch sk =? 1) = true |- _ => apply orb_eqb in H; rename H into Hbk end.
+    assert (HBk : 0 < tbatch sk) by lia.
+    split.
+    { apply (slice_bw_in_bounds sy sk dim off base ny nk R' B (tbatch sk)); auto; lia. }
+    set (sk' := rebatch sk B).
+    assert (Hs : adj_of (tsize sy) (tsize sk') (fun u => scatterR (slice_bw sk' sy dim off) u (zeros (tsize sy)))
+                        (gatherR (slice_fw sy sk' dim off) (tsize sk'))).
+    { apply (adj_flip rO rI radd rmul rsub ropp Rth). apply pair_adj.
+      apply (slice_pair_same sy sk' dim off base ny nk R' B B); auto. }
+    unfold concat_bw. fold B sk'.
+    destruct (Nat.eq_dec (tbatch sk) B) as [Esame|Ediff].
+    - (* operand of the full batch: sk' = sk *)
+      assert (Esk : sk' = sk) by (unfold sk', rebatch; rewrite <- Esame; destruct sk; reflexivity).
+      rewrite Esk in *.
+      exact (adj_compose rO radd rmul _ _ _ _ _ (fun x => x) (plus_eq sk) Hs (plus_eq_adj sk HBk)).
+    - (* batch-1 operand: the forward shares its one sample among the B samples of y *)
+      assert (E1 : tbatch sk = 1) by lia.
+      set (V := tvolume sk) in *.
+      assert (Hp : adjoint_pair (share_fw B V (identity_pairs V)) (inplace_add sk' sk) (tsize sk') (tsize sk)).
+      { apply (inplace_add_pair_fold sk' sk V B 1); auto; lia. }
+      pose proof (pair_adj _ _ _ _ Hp) as HI.
+      apply (adj_ext rO radd rmul _ _ _ _ _ _
+               (adj_compose rO radd rmul _ _ _ _ _ _ _ Hs HI)); [|reflexivity].
+      intros dx Hd. cbv beta. rewrite !scatter_incr. f_equal.
+      unfold slice_bw. fold base nk.
+      assert (Hnk' : tget sk' dim = nk) by reflexivity. assert (Hv' : tvolume sk' = V) by reflexivity.
+      rewrite Hnk', Hv'. change (tbatch sk') with B. rewrite E1. fold B ny V. replace (Nat.max B 1) with B by lia. rewrite ?Nat.max_id.
+      rewrite !map_flat_map2. apply ProofsBilinear.flat_map2_ext. intros b Hb.
+      rewrite !map_flat_map2. apply ProofsBilinear.flat_map2_ext. intros i Hi.
+      rewrite !map_map. apply map_range_ext. intros j Hj. cbn [fst snd]. f_equal.
+      fold R' in Hi.
+      assert (Hr : i * (base * nk) + j < V).
+      { match goal with H : V = _ |- _ => rewrite H end.
+        assert ((i + 1) * (base * nk) <= R' * (base * nk)) by (apply Nat.mul_le_mono_r; lia). lia. }
+      assert (Hz : thas_batch sk = 0) by (unfold thas_batch; rewrite E1; reflexivity).
+      rewrite Hz, Nat.mul_0_l, Nat.mul_0_r, Nat.add_0_l.
+      rewrite (bidx_skip sk' V b). change (tbatch sk') with B. rewrite (bidx_same B b Hb).
+      unfold tsize. change (tbatch sk') with B. rewrite Hv', <- Nat.add_assoc.
+      symmetry. apply gather_share; assumption.
+  Qed.
+
   (* ---------------------------------------------------------------- the operators *)
   Inductive cop :=
   | OParam (p : nat) (s : tshape)
@@ -291,7 +481,9 @@ Section Family.
   | OBatchSum (sx sy : tshape)
   | OSplit (sx sy : tshape) (dim n : nat)
   | OBatchSplit (sx sy : tshape) (n : nat)
-  | OConv2d (sx sw sy : tshape) (p0 p1 s0 s1 d0 d1 : nat).
+  | OConv2d (sx sw sy : tshape) (p0 p1 s0 s1 d0 d1 : nat)
+  | OBatchConcat (xs : list tshape) (sy : tshape)
+  | OConcat (xs : list tshape) (sy : tshape) (dim : nat).
 
   Definition leaf_desc (s : tshape) (v : list R) (ok nop : bool) : opdesc :=
     {| d_args := []; d_rets := [s]; d_ok := ok; d_nop := nop;
@@ -353,6 +545,13 @@ Section Family.
           (fun i => batch_slice_fw sx sy (i * tbatch sy)) (fun i => batch_slice_bw sy sx (i * tbatch sy))
     | OConv2d sx sw sy p0 p1 s0 s1 d0 d1 =>
         bil_desc rO radd rmul sx sw sy (conv2d_ok sx sw sy) (conv2d_triples sx sw sy p0 p1 s0 s1 d0 d1)
+    | OBatchConcat xs sy =>
+        nary_desc rO xs sy (batch_concat_ok xs sy) (batch_concat_fw xs)
+          (fun k gy => let sk := nth k xs dshape in
+                       plus_eq sk (gatherR (batch_slice_fw sy sk (boff xs k)) (tsize sk) gy))
+    | OConcat xs sy dim =>
+        nary_desc rO xs sy (concat_ok xs sy dim) (concat_fw xs sy dim)
+          (fun k gy => concat_bw sy (nth k xs dshape) dim (concat_off xs dim k) gy)
     end.
 
   Definition core_family : OpFamily cop tshape (@OpFamily.vec R) :=
@@ -422,6 +621,16 @@ Section Family.
     - (* Split *) apply (fan_LA rO rI radd rmul rsub ropp Rth). intro H. apply split_ok_pair. exact H.
     - (* BatchSplit *) apply (fan_LA rO rI radd rmul rsub ropp Rth). intro H. apply batch_split_ok_pair. exact H.
     - (* Convolution2D *) apply (bil_LA rO rI radd rmul rsub ropp Rth). intro H. apply conv2d_ok_bounds. exact H.
+    - (* BatchConcat *)
+      apply (nary_LA rO rI radd rmul rsub ropp Rth xs sy _ _ (fun k => batch_slice_bw (nth k xs dshape) sy (boff xs k))).
+      intro H. destruct (batch_concat_ok_spec xs sy H) as (Hc & Hf & Hk). split; [exact Hc|split; [exact Hf|]].
+      intros k sk Esk. rewrite (nth_error_nth _ _ dshape Esk). destruct (Hk k sk Esk) as (Hb & Hp). split.
+      + destruct Hp as (_ & _ & Hbnd). exact Hbnd.
+      + cbv zeta. apply post_plus_eq; [|exact Hb]. apply (adj_flip rO rI radd rmul rsub ropp Rth). apply pair_adj. exact Hp.
+    - (* Concat *)
+      apply (nary_LA rO rI radd rmul rsub ropp Rth xs sy _ _ (fun k => slice_bw (nth k xs dshape) sy dim (concat_off xs dim k))).
+      intro H. destruct (concat_ok_spec xs sy dim H) as (Hc & Hf & Hk). split; [exact Hc|split; [exact Hf|]].
+      intros k sk Esk. rewrite (nth_error_nth _ _ dshape Esk). apply paste_adj. apply Hk. exact Esk.
   Qed.
 
   (* a descriptor's adjointness is LocalAdjoint of the family *)
